@@ -6,6 +6,7 @@ import Compass.Drv.C11
 import Compass.Drv.C18
 import Compass.Drv.C20
 import Compass.Drv.C16
+import Compass.Drv.C08
 
 /-- `driver <prop>`: reads one case per line on stdin, prints the model's canonical output line -/
 partial def loop (h : IO.FS.Stream) (out : IO.FS.Stream) (f : String → String) : IO Unit := do
@@ -32,6 +33,7 @@ def dispatch : String → Option (String → String)
   | "C18" => some Compass.Drv.C18.run
   | "C20" => some Compass.Drv.C20.run
   | "C16" => some Compass.Drv.C16.run
+  | "C08" => some Compass.Drv.C08.run
   | _ => none
 
 def main (args : List String) : IO UInt32 := do
